@@ -431,14 +431,32 @@ class World:
         return self.g(*args, actor=actor, check=check)
 
     def open_pr(self, src, dst, author=AUTHOR, base_back=0, files=None,
-                touch_shared=None, title='title'):
+                touch_shared=None, title='title', base_branch=None,
+                same_as=None):
         """Create branch src from dst (optionally from an older commit of
-        dst), commit, push, open the PR.  Returns the PR id or None."""
+        dst, or from another - older - destination branch), commit, push,
+        open the PR.  With same_as=<pr id> the new source branch is a second
+        name for the commits of that PR's source (a backport / forward-port
+        of the same commits to another destination).
+        Returns the PR id or None."""
         heads = self.heads()
         if dst not in heads or src in heads:
             return None
         self.fetch()
+        if same_as is not None:
+            other = self.prs.get(same_as)
+            if not other or other['src'] not in heads:
+                return None
+            self.push('%s:refs/heads/%s' % (heads[other['src']], src))
+            pr = self.hosts[author].create_pull_request(
+                title=title, name='name', src_branch=src, dst_branch=dst,
+                close_source_branch=True, description='')
+            self.prs[pr.id] = {'src': src, 'dst': dst, 'author': author}
+            self.note_commits()
+            return pr.id
         base = 'origin/' + dst
+        if base_branch and base_branch in heads:
+            base = 'origin/' + base_branch
         if base_back:
             rc, out, _ = self.g('rev-parse', '-q', '--verify',
                                 '%s~%d' % (base, base_back), check=False)
